@@ -10,12 +10,18 @@ cfg = json.load(open(os.path.join(ROOT, "units.json")))
 for name, u in cfg["units"].items():
     drops = set()
     shapes = {}
+    trusted = {}
+    derives = {}
     for prof in u.get("profiles", [{"name": "default", "defines": {}}]):
         d = dict(u.get("defines", {}), **prof.get("defines", {}))
         text, origins, log = template.build(os.path.join(ROOT, u["vc"]), os.environ.get("VERIF_REPO", "/repo"), d)
         drops |= {x.replace(" ", "") for x in log.dropped}
         shapes.update(log.loop_shapes)
+        trusted.update(log.trusted_text)
+        derives.update(log.derives)
     u["expected_not_under_contract"] = sorted(drops)
     u["expected_loop_shapes"] = shapes
+    u["expected_trusted_text"] = trusted
+    u["expected_derives"] = derives
     print(name, len(drops))
 json.dump(cfg, open(os.path.join(ROOT, "units.json"), "w"), indent=1)
